@@ -82,6 +82,7 @@ FIXED = [
     ('C18', '9115501', 'Predicates: P=[(0,0,2),(1,0,1)]; P[0:2]=[(0,0,1),(0,0,2)] left two arities of one symbol'),
     ('C09', 'dbd8fcd', 'Serial._should_apply refused to fire after its own application on the same branch, starving a second world without successor: D, Mc, MKLaLNa |- d was reported invalid (model not a countermodel) while MKLaLNa, Mc |- d is valid (premise order changes the verdict)'),
     ('C02', '504e4b3', 'Reflexive._get_node_targets released a node once ONE of its worlds had its loop; the other world could stay without reflexive access on a completed, unflagged branch: S4G3 MMa |- NMb (is_group_optim=False, is_rank_optim=False, tie-break seed 2) lacks 1R1'),
+    ('C03', '2a8d047', 'Serial._last_serial_world read the last history entry of the whole TABLEAU instead of the last rule applied to the branch: with two or more open branches the branches take turns and every branch gets new worlds until MaxWorlds silently stops the rule — D, Aab |- c (purely propositional) ends over the world limit with worlds 0,1,2 on both branches (key C03:limit:D:world-limit)'),
     ('C02', '95f987f', 'NecessityDesignated-type rules starved nodes behind a never-applicable least-applied node (NodeCount.isleast): completed tableaux with box-type instances missing at an accessible world, e.g. S5L3 BELcNcTLa, ABacEbc |- MMc (undesignated MMc at w0 never yields Mc at accessible world 2); TK3WQ c, KaBMaLa, Aba |- NMEcc'),
 ]
 # genuine defects kept as findings (no small safe repair)
